@@ -277,7 +277,9 @@ func hDescOwner(o *HOwner) string {
 }
 
 func hWalk(os []*HOwner) (recs []hRec, links int) {
-	add := func(p interface{}, typ, name string) { recs = append(recs, hRec{ptr: fmt.Sprintf("%p", p), typ: typ, name: name}) }
+	add := func(p interface{}, typ, name string) {
+		recs = append(recs, hRec{ptr: fmt.Sprintf("%p", p), typ: typ, name: name})
+	}
 	for _, o := range os {
 		add(o, "HOwner", o.Name)
 		if o.Boss != nil {
